@@ -53,14 +53,16 @@ def n_sig_shapes():
 def sig_text(po, pk, ko, star, dstar, defaults=False):
     parts = []
     names = []
+    # positional parameters are named by position only, so that shapes that differ
+    # just in where '/' sits have identical names and counts
     for i in range(po):
-        parts.append("p%d" % i)
-        names.append("p%d" % i)
+        parts.append("x%d" % i)
+        names.append("x%d" % i)
     if po:
         parts.append("/")
     for i in range(pk):
-        parts.append("a%d" % i + ("=None" if defaults else ""))
-        names.append("a%d" % i)
+        parts.append("x%d" % (po + i) + ("=None" if defaults else ""))
+        names.append("x%d" % (po + i))
     if star:
         parts.append("*args")
     elif ko:
